@@ -1,1 +1,8 @@
+pub mod ber;
+pub mod build;
+pub mod cssp;
+pub mod bytes;
+pub mod ntlm;
+pub mod per;
+pub mod proto;
 pub mod rle;
